@@ -1,5 +1,5 @@
 SPECIFICATION Spec
-CONSTANT Only = "all"
+CONSTANT Only = "obsfcst"
 INVARIANT InvEveryCaseInOneBin
 INVARIANT InvPitBins
 CHECK_DEADLOCK FALSE
